@@ -96,6 +96,19 @@ def o_avail(rec: Recorder, case, soft=False):
     else:
         if not (st == "err" and isinstance(r, exc.MissingBackendError)):
             rec.fail(f"C03/unavailable/{name}/{backend}", f"{name}.set_backend({backend!r}) of an absent backend did not raise MissingBackendError", "availability", case, repr(r), "MissingBackendError", soft=soft)
+            return
+        # a refused selection must leave the hasher working with the backend it had
+        s = _probe_settings(name)
+        st, r = call(lambda: h.using(**s).hash("pässword"))
+        exp = RF.ref_hash(name, "pässword", RF.norm_settings(name, s), {})
+        if st == "err" or (exp is not None and r != exp):
+            rec.fail(f"C03/failed-select-corrupts/{name}/{backend}", f"{name}: after a refused set_backend({backend!r}) the hasher no longer hashes correctly", "availability", case, repr(r), exp, soft=soft)
+            return
+        cur = h.get_backend()
+        st, r = call(h.set_backend, cur)
+        st2, r2 = call(lambda: h.using(**s).hash("pässword"))
+        if st == "err" or st2 == "err" or (exp is not None and r2 != exp):
+            rec.fail(f"C03/failed-select-corrupts/{name}/{backend}", f"{name}: after a refused set_backend({backend!r}) re-selecting the reported backend {cur!r} fails", "availability", case, repr(r2), exp, soft=soft)
 
 
 def _probe_settings(name, i=0):
@@ -253,8 +266,8 @@ def make_machine(rec):
         @rule(name=names, data=st.data())
         def set_backend(self, name, data):
             b = data.draw(st.sampled_from(list(table.handler(name).backends)))
-            if b == "builtin" and "bcrypt" in name and data.draw(st.integers(0, 3)):
-                b = "bcrypt"
+            if b == "builtin" and "bcrypt" in name and host_supports(name, "builtin") and data.draw(st.integers(0, 3)):
+                b = "bcrypt"  # the pure-python bcrypt is slow: select it rarely
             self._run(["set", name, b])
 
         @rule(name=names, data=st.data())
@@ -355,5 +368,6 @@ def tasks(tier):
     for name in ("bcrypt", "bcrypt_sha256", "django_bcrypt"):
         ts.append({"name": f"avail-nobuiltin-{name}", "fn": "t_avail", "kw": {"name": name}, "env": {"PASSLIB_BUILTIN_BCRYPT": ""}})
     for sh in range(4 if tier == "quick" else 8):
-        ts.append({"name": f"machine-{sh}", "fn": "t_machine", "kw": {"shard": sh}, "env": env_on})
+        # odd shards run without the builtin bcrypt opt-in, so histories contain refused selections
+        ts.append({"name": f"machine-{sh}", "fn": "t_machine", "kw": {"shard": sh}, "env": env_on if sh % 2 == 0 else {"PASSLIB_BUILTIN_BCRYPT": ""}})
     return ts
